@@ -212,7 +212,7 @@ def accept_expr(e, acc):
     if acc == 'bytes':
         return f'Option.any bytesOk {e}'
     if acc == 'enum':
-        return f'Option.isSome {e}'
+        return f'Option.any inEnum {e}'            # none = unknown name (ValueError); a value outside int32: ValueError
     k, a = acc
     if k == 'msg':
         return f'P{a}.accepts {e}'
